@@ -14,6 +14,8 @@ def gather_ticks(ctx):
             "mode": "ticks", "seed": ctx.seed * 31 + k, "count": (1600 if quick else 24000) // core.NCPU,
             "lattice": {"lo": -12, "hi": 12, "offset": (k * (stride // core.NCPU) + ctx.seed) % stride, "stride": stride,
                         "ms": [1, 2, 3, 5, 7, 10, 13, 20, 37, 50, 100], "exps": [-6, -4, -2, -1, 0, 1, 3, 6, 9]}}})
+    # inputs of known findings are replayed on every run (F-14L)
+    jobs[0]["stdin_obj"]["pinned"] = [[1.049021664497022e-06, 1.0451906509858624e-06, 1]]
     recs = []
     disc = 0
     for out in core.run_drivers_parallel(jobs):
